@@ -675,11 +675,12 @@ Definition is_fill (a : inst_arg) : bool := match a with AFill _ => true | _ => 
 Definition args_ok (d : deviations) (args : list inst_arg) (trailing : bool) : bool :=
   match args with
   | [] => empty_new_args d
+  | [AFill _] => if trailing then fill_anywhere d else fill_alone d
   | _ :: _ =>
       fill_anywhere d ||
       (negb (existsb is_fill (removelast args)) &&
        (negb (is_fill (last args (AInferred {| id_string := []; id_span := {| off := 0; slen := 0 |} |})))
-        || (negb trailing && (match args with [_] => fill_alone d | _ => true end))))
+        || negb trailing))
   end.
 
 Fixpoint postfix_loop (n : nat) (e : env) (ts : list lexitem) : pres (list postfix_expr) :=
